@@ -20,7 +20,7 @@ CONSTANTS K,        \* refinement depth bound
           Shard,    \* ... this one takes the roots with index % NShards = Shard
           Emit,     \* print every distinct state as a JSON line
           RootSel,  \* "all" or one root kind
-          KV        \* variants (deviations, dropped specials, unknown keys) are taken from states of depth <= KV; -1 = none
+          KV        \* variants (deviations, dropped specials, unknown keys) are taken from states of depth < KV (0 = none)
 
 Root(kind, name) == [kind |-> kind, name |-> name]
 RootSeq ==
@@ -85,6 +85,9 @@ RECURSIVE AltMins(_)
 AltMins(t) == CASE t.kind = "or" -> UNION {AltMins(t.items[i]) : i \in DOMAIN t.items}
                 [] t.kind = "reference" /\ t.name \in AName /\ t.name # "LSPAny" -> AltMins(ADef[t.name].type)
                 [] t.kind = "reference" /\ t.name \in EName -> EnumAlpha(t.name)   \* every declared value at every use site (C13)
+                \* a container appears empty or with one element of each alternative
+                [] t.kind = "array" -> {OArr(<<>>)} \cup {OArr(<<m>>) : m \in AltMins(t.element)}
+                [] t.kind = "map" -> {OMap(<<>>)} \cup {OMap("key" :> m) : m \in AltMins(t.value)}
                 [] OTHER -> {MinV(t)}
 
 (***************************************************************************)
@@ -201,7 +204,7 @@ Refine == /\ svDepth < K /\ svVar.vk = "none"
           /\ svDepth' = svDepth + 1
           /\ UNCHANGED <<svRoot, svVar>>
 
-CanVary == svVar.vk = "none" /\ svDepth <= KV
+CanVary == svVar.vk = "none" /\ svDepth < KV
 CanDeviate == CanVary /\ svRoot.kind = "structure"     \* C11 / C12 speak about structures
 Same == UNCHANGED <<svRoot, svDepth>>
 PropV(kind, name) == [vk |-> kind, name |-> name]
